@@ -25,6 +25,10 @@ let parse_hops a =
       let i = next_int a in
       let k = (match next a with "A" -> 0 | "V" -> 1 | "K" -> 2 | s -> failwith ("bad run kind " ^ s)) in
       let cnt = next_z a in HRUN (nat_of_int i, z_of_int k, cnt)
+    | "RR" ->
+      let i = next_int a in
+      let k = (match next a with "A" -> 0 | "V" -> 1 | "K" -> 2 | s -> failwith ("bad run kind " ^ s)) in
+      let k1 = next_z a in let k2 = next_z a in HRR (nat_of_int i, z_of_int k, k1, k2)
     | "STR" -> HSTR (nat_of_int (next_int a))
     | "ND" -> HND (nat_of_int (next_int a))
     | s -> failwith ("bad hist op " ^ s))
@@ -35,7 +39,7 @@ let ver_z ver = z_of_int (match ver with "v1" -> 1 | "v2" -> 2 | _ -> 3)
 
 let hist_tags args =
   let has s = List.mem s args in
-  (if has "NX" then ["pull"] else []) @ (if has "RUN" then ["push"] else [])
+  (if has "NX" then ["pull"] else []) @ (if has "RUN" then ["push"] else []) @ (if has "RR" then ["rerun"] else [])
   @ (if has "WE" || has "WSG" then ["limit"] else []) @ (if has "WS" || has "FWS" then ["start"] else [])
   @ (if has "B" || has "K" || has "R1" then ["backward"] else [])
 
